@@ -520,7 +520,7 @@ pub fn check() -> Check {
     )
     .assume("the all-zero hash (the code's internal placeholder) and a non-root subintent carrying the root subintent's own hash are not generated: neither is a reachable hash relation")
     .assume("max_subintent_depth >= 1 (with 0 and a subintent root the code computes 0 - 1)")
-    .part(Part::new("mock", 2_000_000, 60_000_000, 160, mock_case))
-    .part(Part::new("real", 40_000, 1_600_000, 1500, real_case))
+    .part(Part::new("mock", 12_000_000, 400_000_000, 160, mock_case))
+    .part(Part::new("real", 300_000, 10_000_000, 1500, real_case))
     .min_nontrivial_pct(10.0)
 }
